@@ -24,7 +24,8 @@ RULE = ("lists of 1-8 tempo changes, first at measure 0 beat 0: (a) the half-bea
         "(enumerated exhaustively on the thorough tier, sampled on quick), (b) finer grids (denominators 1..96, 5, 7, 1000, 10000), "
         "(c) positions a whole number of measures / beats plus a remainder on either side of extend_threshold "
         "(incl. exactly the double 0.001 and 1/1000), (d) gaps shorter than the threshold, duplicates, unsorted input, "
-        "already seated lists; any positive bpm (exactly-representable set or arbitrary decimals), metronomes 1-8 and a few "
+        "already seated lists; histories on the mutable records before the call (read beat_length/measure_length or query the map, "
+        "edit bpm/metronome in place, both orders - the model gets the edited values); any positive bpm (exactly-representable set or arbitrary decimals), metronomes 1-8 and a few "
         "fractional ones, any initial offset; claims reseat / from_snap / tm_reseat; exact and float modes. "
         "non-trivial = some interval takes a non-default branch of the loop")
 ASSUMPTIONS = [
@@ -230,7 +231,43 @@ def gen(rng, tier, i):
     claim = rng.choice(["reseat", "reseat", "reseat", "from_snap", "from_snap", "tm_reseat"])
     if claim == "tm_reseat" and mode == "float":
         claim = "from_snap"
-    return dict(claim=claim, mode=mode, t0=R(t0), cs=cs)
+    case = dict(claim=claim, mode=mode, t0=R(t0), cs=cs)
+    if rng.random() < 0.3:
+        case["hist"] = gen_hist(rng, cs)
+    return case
+
+
+def gen_hist(rng, cs):
+    """what a caller may do with the (mutable, public) records between building them and reseating: read the derived
+    lengths (directly or through a TimingMap query) and edit `bpm` / `metronome` in place, in either order"""
+    edits = []
+    for k in rng.sample(range(len(cs)), rng.choice([1, 1, 1, 2, min(3, len(cs))]) if len(cs) > 1 else 1):
+        e = dict(k=k, bpm=None, met=None)
+        r = rng.random()
+        if r < 0.8:
+            old = F(cs[k]["bpm"])
+            e["bpm"] = R(rng.choice([old * 2, old / 2, rand_bpm(rng), rand_bpm(rng)]))
+        if r >= 0.7:
+            beat = F(cs[k]["beat"])
+            cands = [m for m in range(1, 9) if m > beat and m != F(cs[k]["met"])]
+            if cands:
+                e["met"] = R(rng.choice(cands))
+        if e["bpm"] is None and e["met"] is None:
+            e["bpm"] = R(F(cs[k]["bpm"]) * 2)
+        edits.append(e)
+    return dict(order=rng.choice(["read_edit", "read_edit", "read_edit", "edit_read", "read_edit_read", "edit"]),
+                read=rng.choice(["props", "props", "query"]), edits=edits)
+
+
+def final_cs(case):
+    """the records' public fields at the moment of the reseating call"""
+    cs = [dict(c) for c in case["cs"]]
+    for e in (case.get("hist") or {}).get("edits", []):
+        if e.get("bpm") is not None:
+            cs[e["k"]]["bpm"] = e["bpm"]
+        if e.get("met") is not None:
+            cs[e["k"]]["met"] = e["met"]
+    return cs
 
 
 def _c(bpm, met, measure, beat):
@@ -260,6 +297,17 @@ def corpus():
     c.append(dict(claim="reseat", mode="exact", t0=R(0), cs=[_c(100, 4, 0, 0), _c(50, 4, 3, 1), _c(200, 4, 1, Fr(7, 2))]))
     # fractional metronome
     c.append(dict(claim="reseat", mode="exact", t0=R(0), cs=[_c(60, Fr(9, 2), 0, 0), _c(120, 4, 1, 1)]))
+    # histories: inspect the records (or query the map), retime one change in place, then reseat
+    h = dict(order="read_edit", read="props", edits=[dict(k=1, bpm=R(240), met=None)])
+    c.append(dict(claim="reseat", mode="exact", t0=R(0), hist=h,
+                  cs=[_c(120, 4, 0, 0), _c(120, 4, 1, 2), _c(60, 4, 4, 0), _c(240, 4, 6, 3)]))
+    c.append(dict(claim="from_snap", mode="float", t0=R(-37.5), hist=dict(h, order="read_edit_read"),
+                  cs=[_c(120, 4, 0, 0), _c(120, 4, 1, 2), _c(60, 4, 4, 0), _c(240, 4, 6, 3)]))
+    c.append(dict(claim="tm_reseat", mode="exact", t0=R(-37.5), hist=dict(h, read="query"),
+                  cs=[_c(120, 4, 0, 0), _c(120, 4, 1, 2), _c(60, 4, 4, 0)]))
+    c.append(dict(claim="reseat", mode="exact", t0=R(0),
+                  hist=dict(order="edit_read", read="props", edits=[dict(k=0, bpm=R(60), met=R(3))]),
+                  cs=[_c(120, 4, 0, 0), _c(120, 4, 2, 0), _c(60, 4, 3, 1)]))
     # first change not at (0,0): reseat itself does not check, from_snap raises ValueError (error path, correspondence only)
     c.append(dict(claim="from_snap", mode="exact", t0=R(0), cs=[_c(60, 4, 1, 0), _c(120, 4, 2, 1)]))
     return c
@@ -277,7 +325,14 @@ def valid(case):
         cs = case["cs"]
         if not cs:
             return False
-        for c in cs:
+        h = case.get("hist")
+        if h is not None:
+            if h["order"] not in ("read_edit", "edit_read", "read_edit_read", "edit") or h["read"] not in ("props", "query"):
+                return False
+            for e in h["edits"]:
+                if not (0 <= e["k"] < len(cs)) or (e.get("bpm") is None and e.get("met") is None):
+                    return False
+        for c in cs + final_cs(case):
             m = F(c["met"])
             if F(c["bpm"]) <= 0 or not met_ok(m) or F(c["beat"]) < 0 or F(c["beat"]) >= m or c["measure"] < 0:
                 return False
@@ -351,6 +406,35 @@ def noise_zero_metronome(e):
         return False
 
 
+def play_history(hist, rows, tm, mode, Snap):
+    """read the derived lengths / edit the public fields of the records in place, in the order the case says.
+    `rows` are BpmChangeSnap (list claims) or the map's BpmChangeOffset records (`tm` given)."""
+    def read():
+        if hist["read"] == "query" and tm is not None:
+            try:                       # the query only serves to make the library read the lengths; its own
+                last = max(int(b.snap.measure) for b in tm.bpm_changes_snap())      # outcome is C10's business
+                tm.offsets([Snap(last + 1, 0, None), Snap(0, 0, None), Snap(last + 3, 0, None)])
+            except Exception:
+                pass
+        else:
+            for r in rows:
+                _ = (r.beat_length, r.measure_length)
+
+    def edit():
+        for e in hist["edits"]:
+            r = rows[e["k"]]
+            if e.get("bpm") is not None:
+                r.bpm = num(e["bpm"], mode)
+            if e.get("met") is not None:
+                mv = met_val(e["met"], mode)
+                r.metronome = mv
+                if hasattr(r, "snap"):
+                    r.snap.metronome = mv
+
+    for step in hist["order"].split("_"):
+        read() if step == "read" else edit()
+
+
 def bcs_to_j(out):
     r = []
     for o in out:
@@ -400,10 +484,12 @@ def run(case, drv):
     THR = src_thr()
     t0 = num(case["t0"], mode)
     t0x = R(Fr(t0))
-    jcs = exact_cs(cs, mode)
+    hist = case.get("hist")
+    # the model is given the records' public fields as they are when the reseating entry point is called
+    jcs = exact_cs(cs if claim == "tm_reseat" else final_cs(case), mode)
     tol = R(0) if mode == "exact" else TOL_FLOAT
     dom = drv.call("c11.dom", cs=jcs, thr=THR)["ok"]
-    tags = [mode, claim] + sorted(set(dom["classes"]))
+    tags = [mode, claim] + sorted(set(dom["classes"])) + ([f"hist:{hist['order']}:{hist['read']}"] if hist else [])
     # = the hypotheses `Dom thr l` of Props/C11.lean (the theorems are stated for ascending input)
     in_dom = dom["sorted"] and dom["wf"] and dom["first_zero"] and dom["no_beat_extend"] and dom["no_tiny_gap"] and dom["met_ok"]
     quantified = dom["wf"] and dom["first_zero"] and dom["met_ok"]        # inside the property's own quantifier
@@ -413,6 +499,8 @@ def run(case, drv):
     with exact_mode(mode == "exact"), time_limit(10):
         try:
             bcs = build_impl_changes(cs, mode)
+            if hist and claim != "tm_reseat":
+                play_history(hist, bcs, None, mode, Snap)
             if claim == "reseat":
                 out = TimingMap.reseat_bpm_changes_snap(bcs)
                 impl = ("ok", bcs_to_j(out))
@@ -421,6 +509,8 @@ def run(case, drv):
                 impl = ("ok", bco_to_j(tm.bpm_changes_offset))
             else:
                 tm0 = TimingMap.from_bpm_changes_snap(t0, bcs, reseat=False)
+                if hist:
+                    play_history(hist, tm0.bpm_changes_offset, tm0, mode, Snap)
                 impl_tm0 = bco_to_j(tm0.bpm_changes_offset)
                 tm = tm0.reseat()
                 impl = ("ok", bco_to_j(tm.bpm_changes_offset))
@@ -444,6 +534,10 @@ def run(case, drv):
             spec_inp = m["ok"]["bcs"]          # what TimingMap.reseat() reseats: the re-derived snaps
             m = dict(ok=m["ok"]["tm"])
             d2 = drv.call("c11.dom", cs=spec_inp, thr=THR)["ok"]
+            if hist:                           # the map was edited after it was built: only the re-derived list counts
+                in_dom = d2["sorted"] and d2["wf"] and d2["first_zero"] and d2["met_ok"]
+                quantified = in_dom
+                dom = dict(dom, no_beat_extend=True, no_tiny_gap=True, classes=d2["classes"], in_times=d2["in_times"])
             in_dom = in_dom and d2["no_beat_extend"] and d2["no_tiny_gap"]
             dom = dict(dom, no_beat_extend=dom["no_beat_extend"] and d2["no_beat_extend"],
                        no_tiny_gap=dom["no_tiny_gap"] and d2["no_tiny_gap"], margin=R(min(F(dom["margin"]), F(d2["margin"]))))
